@@ -239,6 +239,41 @@ func checkAddOn(raw json.RawMessage) error {
 	if err := json.Unmarshal(raw, &c); err != nil {
 		return fmt.Errorf("hx: %v", err)
 	}
+	return evalAddOn(oned.NewEAN13Reader(), c)
+}
+
+// AddOnHistory is a sequence of add-on reads made with ONE reader instance: the verdict
+// on each symbol must be what a fresh reader gives, whatever was read (or refused) before.
+type AddOnHistory struct {
+	Reader string      `json:"reader"` // EAN13 | MULTI_UPC_EAN
+	Steps  []AddOnCase `json:"steps"`
+}
+
+func checkAddOnHistory(raw json.RawMessage) error {
+	var h AddOnHistory
+	if err := json.Unmarshal(raw, &h); err != nil {
+		return fmt.Errorf("hx: %v", err)
+	}
+	var r gozxing.Reader
+	switch h.Reader {
+	case "MULTI_UPC_EAN":
+		r = oned.NewMultiFormatUPCEANReader(map[gozxing.DecodeHintType]interface{}{
+			gozxing.DecodeHintType_POSSIBLE_FORMATS: []gozxing.BarcodeFormat{gozxing.BarcodeFormat_EAN_13}})
+	default:
+		r = oned.NewEAN13Reader()
+	}
+	for i, st := range h.Steps {
+		if err := evalAddOn(r, st); err != nil {
+			if strings.HasPrefix(err.Error(), "hx:") {
+				return err
+			}
+			return fmt.Errorf("step %d of %d on one %s reader: %v", i+1, len(h.Steps), h.Reader, err)
+		}
+	}
+	return nil
+}
+
+func evalAddOn(reader gozxing.Reader, c AddOnCase) error {
 	main, err := onedref.EAN13Modules(c.Main)
 	if err != nil || !onedref.ValidCheck(c.Main) {
 		return fmt.Errorf("hx: main symbol")
@@ -270,7 +305,7 @@ func checkAddOn(raw json.RawMessage) error {
 	if c.Allowed != nil {
 		hints = map[gozxing.DecodeHintType]interface{}{gozxing.DecodeHintType_ALLOWED_EAN_EXTENSIONS: c.Allowed}
 	}
-	res, err := oned.NewEAN13Reader().Decode(bmp, hints)
+	res, err := reader.Decode(bmp, hints)
 	desc := fmt.Sprintf("EAN-13 %s + %d-digit add-on %s with parity %s (valid=%v), allowed=%v, scale %d", c.Main, len(c.Digits), c.Digits, c.Parity, valid, c.Allowed, c.Scale)
 	allowedHas := func(n int) bool {
 		for _, a := range c.Allowed {
@@ -365,6 +400,7 @@ func TestCheck(t *testing.T) {
 		c.Register("refuse", checkRefuse)
 		c.Register("expand", checkExpand)
 		c.Register("addon", checkAddOn)
+		c.Register("addon_history", checkAddOnHistory)
 		// known finding: an upside-down UPC-E symbol can itself decode as a different, valid UPC-E number
 		c.RegisterMatcher("upce-upside-down-misread", func(raw json.RawMessage, err error) bool {
 			var cs SubstCase
@@ -629,5 +665,59 @@ func TestCheck(t *testing.T) {
 			}
 		}
 		c.SetExhaustive("ean5_addons", stride5 == 1)
+
+		// (f) add-on reads as a history on one reader instance (buffers are per reader)
+		c.Rapid("addon_reader_histories", c.N(300, 6000), func(t *rapid.T) {
+			h := AddOnHistory{Reader: rapid.SampledFrom([]string{"EAN13", "EAN13", "MULTI_UPC_EAN"}).Draw(t, "reader")}
+			n := rapid.IntRange(2, 6).Draw(t, "steps")
+			bad, goodAfterBad := false, false
+			for i := 0; i < n; i++ {
+				r := hx.NewRng(rapid.Uint64().Draw(t, "mainseed"))
+				st := AddOnCase{Main: randNumber("EAN13", r), Scale: rapid.IntRange(1, 2).Draw(t, "scale")}
+				five := rapid.Bool().Draw(t, "five")
+				ok := rapid.Bool().Draw(t, "valid")
+				if five {
+					st.Digits = fmt.Sprintf("%05d", rapid.IntRange(0, 99999).Draw(t, "v5"))
+					k := onedref.EAN5Checksum(st.Digits)
+					st.Parity = ""
+					for _, p := range pats5 {
+						if onedref.EAN5ParityOf(p) == k {
+							st.Parity = p
+						}
+					}
+					if !ok {
+						st.Parity = rapid.SampledFrom(pats5).Draw(t, "par5")
+					}
+				} else {
+					v := rapid.IntRange(0, 99).Draw(t, "v2")
+					st.Digits = fmt.Sprintf("%02d", v)
+					st.Parity = []string{"LL", "LG", "GL", "GG"}[v%4]
+					if !ok {
+						st.Parity = rapid.SampledFrom([]string{"LL", "LG", "GL", "GG"}).Draw(t, "par2")
+					}
+				}
+				if rapid.IntRange(0, 4).Draw(t, "hint") == 0 {
+					st.Allowed = rapid.SampledFrom([][]int{{2}, {5}, {0, 2, 5}, {2, 5}}).Draw(t, "allowed")
+				}
+				good := (five && onedref.EAN5ParityOf(st.Parity) == onedref.EAN5Checksum(st.Digits)) ||
+					(!five && st.Parity == []string{"LL", "LG", "GL", "GG"}[(int(st.Digits[0]-'0')*10+int(st.Digits[1]-'0'))%4])
+				if !good {
+					bad = true
+				} else if bad {
+					goodAfterBad = true
+				}
+				h.Steps = append(h.Steps, st)
+			}
+			cl := "all_valid"
+			if goodAfterBad {
+				cl = "valid_after_refused"
+			} else if bad {
+				cl = "refused_last_or_only_refused"
+			}
+			c.Note("addon_reader_histories", cl+"/"+h.Reader, goodAfterBad, hx.HashS("ah", fmt.Sprint(h)), func() any { return h })
+			if err := c.Eval("addon_history", h); err != nil {
+				t.Fatalf("%v", err)
+			}
+		})
 	})
 }
